@@ -248,4 +248,25 @@ theorem any_kept_iff (wae : Bool) (filt : Option Filter) (ms : List Msg) :
       obtain ⟨d, hd, rfl⟩ := hp
       exact ⟨m, hm, d, by simpa [h] using hd, hf⟩
 
+theorem filteredPairs_sublist (filt : Option Filter) (msgs : List Msg) :
+    (filteredPairs filt msgs).Sublist (filteredPairs none msgs) := by
+  unfold filteredPairs
+  induction msgs with
+  | nil => simp
+  | cons m ms ih =>
+    simp only [List.flatMap_cons]
+    refine List.Sublist.append ?_ ih
+    cases m.2 with
+    | none => simp
+    | some ds =>
+      have h : ds.filter (keep none) = ds := List.filter_eq_self.mpr (fun _ _ => rfl)
+      dsimp only
+      rw [h]
+      exact List.Sublist.map _ List.filter_sublist
+
+theorem filteredPairs_perm (filt : Option Filter) {m₁ m₂ : List Msg} (h : m₁.Perm m₂) :
+    (filteredPairs filt m₁).Perm (filteredPairs filt m₂) := by
+  unfold filteredPairs
+  exact List.Perm.flatMap_right _ h
+
 end Exit
